@@ -6,6 +6,7 @@ import (
 	"go/token"
 	"go/types"
 	"math/big"
+	"sort"
 	"strings"
 
 	"golang.org/x/tools/go/ssa"
@@ -137,11 +138,73 @@ func (fc *FnCtx) notAllocated(v Val, t types.Type) string {
 	}
 	var fs []string
 	for a, id := range fc.allocIDs {
-		if fc.unescaped[a] {
+		if fc.unescaped[a] || !fc.mayHaveRun(a) {
 			fs = append(fs, not(eq(sx("allocid", ref), num(int64(id)))))
 		}
 	}
+	sort.Strings(fs)
 	return and(fs...)
+}
+
+// mayHaveRun: can allocation site a have executed before the current program point?
+func (fc *FnCtx) mayHaveRun(a ssa.Value) bool {
+	in, ok := a.(ssa.Instruction)
+	if !ok || fc.cur == nil {
+		return false
+	}
+	ab := in.Block()
+	if ab == nil {
+		return true
+	}
+	if fc.blockReaches(ab, fc.cur) {
+		if ab != fc.cur {
+			return true
+		}
+		// same block: earlier instruction, or the block lies on a cycle
+		if fc.onCycle(ab) {
+			return true
+		}
+		for i, x := range ab.Instrs {
+			if x == in {
+				return i < fc.curIdx
+			}
+		}
+		return true
+	}
+	return false
+}
+
+func (fc *FnCtx) blockReaches(a, b *ssa.BasicBlock) bool {
+	if fc.reachM == nil {
+		fc.reachM = map[int]map[int]bool{}
+	}
+	m, ok := fc.reachM[a.Index]
+	if !ok {
+		m = map[int]bool{}
+		stack := []*ssa.BasicBlock{a}
+		m[a.Index] = true
+		for len(stack) > 0 {
+			x := stack[len(stack)-1]
+			stack = stack[:len(stack)-1]
+			for _, s := range x.Succs {
+				if !m[s.Index] {
+					m[s.Index] = true
+					stack = append(stack, s)
+				}
+			}
+		}
+		fc.reachM[a.Index] = m
+	}
+	return m[b.Index]
+}
+
+func (fc *FnCtx) onCycle(b *ssa.BasicBlock) bool {
+	for _, s := range b.Succs {
+		if fc.blockReaches(s, b) {
+			return true
+		}
+	}
+	return false
 }
 
 func (fc *FnCtx) valOf(v ssa.Value) Val {
@@ -251,16 +314,16 @@ func (fc *FnCtx) globalAddr(g *ssa.Global) Val {
 
 func (fc *FnCtx) subRef(st types.Type, f *types.Var, base string) string {
 	fn := qsym("sub." + fc.eng.typeKey(st) + "." + f.Name())
-	fc.declareFun(fn, []string{sInt}, sInt)
-	inv := qsym("sub." + fc.eng.typeKey(st) + "." + f.Name() + ".inv")
-	fc.declareFun(inv, []string{sInt}, sInt)
-	t := sx(fn, base)
-	if !fc.subrefSeen[t] {
-		fc.subrefSeen[t] = true
+	if !fc.declared[fn] {
+		fc.declareFun(fn, []string{sInt}, sInt)
+		inv := qsym("sub." + fc.eng.typeKey(st) + "." + f.Name() + ".inv")
+		fc.declareFun(inv, []string{sInt}, sInt)
 		k := fc.eng.typeIDOf(types.NewPointer(st))*1000 + fieldIndex(st, f) + 1
-		fc.assume(and(eq(sx(inv, t), base), eq(sx("kind", t), num(int64(k))), eq(sx("allocid", t), sx("allocid", base)), not(eq(t, "0"))))
+		t := sx(fn, "r")
+		fc.assume(fmt.Sprintf("(forall ((r Int)) (! %s :pattern (%s)))",
+			and(eq(sx(inv, t), "r"), eq(sx("kind", t), num(int64(k))), eq(sx("allocid", t), sx("allocid", "r")), not(eq(t, "0"))), t))
 	}
-	return t
+	return sx(fn, base)
 }
 
 func fieldIndex(st types.Type, f *types.Var) int {
@@ -276,18 +339,20 @@ func fieldIndex(st types.Type, f *types.Var) int {
 func (fc *FnCtx) elemRef(elem types.Type, obj, idx string) string {
 	key := fc.eng.typeKey(elem)
 	fn := qsym("elem." + key)
-	fc.declareFun(fn, []string{sInt, sInt}, sInt)
-	io := qsym("elem." + key + ".obj")
-	ii := qsym("elem." + key + ".idx")
-	fc.declareFun(io, []string{sInt}, sInt)
-	fc.declareFun(ii, []string{sInt}, sInt)
-	t := sx(fn, obj, idx)
-	if !fc.subrefSeen[t] {
-		fc.subrefSeen[t] = true
+	if !fc.declared[fn] {
+		fc.declareFun(fn, []string{sInt, sInt}, sInt)
+		io := qsym("elem." + key + ".obj")
+		ii := qsym("elem." + key + ".idx")
+		fc.declareFun(io, []string{sInt}, sInt)
+		fc.declareFun(ii, []string{sInt}, sInt)
 		k := fc.eng.typeIDOf(types.NewSlice(elem))*1000 + 999
-		fc.assume(and(eq(sx(io, t), obj), eq(sx(ii, t), idx), eq(sx("kind", t), num(int64(k))), eq(sx("allocid", t), sx("allocid", obj)), not(eq(t, "0"))))
+		t := sx(fn, "o", "i")
+		fc.assume(fmt.Sprintf("(forall ((o Int) (i Int)) (! %s :pattern (%s)))",
+			and(eq(sx(io, t), "o"), eq(sx(ii, t), "i"), eq(sx("kind", t), num(int64(k))), eq(sx("allocid", t), sx("allocid", "o")), not(eq(t, "0"))), t))
+		// every reference of this kind is an element reference
+		fc.assume(fmt.Sprintf("(forall ((r Int)) (! (=> (= (kind r) %d) (= r (%s (%s r) (%s r)))) :pattern ((%s r))))", k, fn, io, ii, io))
 	}
-	return t
+	return sx(fn, obj, idx)
 }
 
 // fieldAddr: address of field f of the struct object at ref base.
